@@ -1,6 +1,7 @@
 //! C12 - game status reflects checkmate, stalemate and the fifty-move rule.
 use super::*;
 use cozy_chess::*;
+use proptest::prelude::*;
 
 pub fn check_board(v: &Visit) -> CaseResult {
     let legal = v.pos.legal_moves();
@@ -70,11 +71,40 @@ fn visit(v: &Visit, st: &mut Stats) -> CaseResult {
 
 pub fn run(ctx: &Ctx) -> Report {
     let mut rep = Report::new(ctx);
-    rep.rule = "Every position along generated histories (extra weight on mate/stalemate-net motifs and on half-move clocks 98..100 via clock setters and constructed clocks); status() is compared with: no legal move & check -> Won; no legal move & no check -> Drawn; legal move & clock >= 100 -> Drawn; else Ongoing (legal moves and check from the reference model). The null-move successor of every visited board is judged as well (with motifs where, after the pass, the only movable enemy pieces are front pieces of a battery aimed at the passer's king). Non-trivial = status other than Ongoing, or clock >= 99; distinct by (FEN hash, clock).".into();
+    rep.rule = "Every position along generated histories (extra weight on mate/stalemate-net motifs and on half-move clocks 98..100 via clock setters and constructed clocks); status() is compared with: no legal move & check -> Won; no legal move & no check -> Drawn; legal move & clock >= 100 -> Drawn; else Ongoing (legal moves and check from the reference model). The null-move successor of every visited board is judged as well (with motifs where, after the pass, the only movable enemy pieces are front pieces of a battery aimed at the passer's king). A second part CONSTRUCTS positions with exactly one legal move: from a generated position a target move is chosen (castling, en passant, two-square pawn push, promotion preferred) and every other legal move is spoiled step by step under the reference model (the moving piece removed, the destination occupied by a new own piece or covered by a new enemy piece) while the target stays legal; status() is judged there, classes only-move:<kind>[:in-check]. Non-trivial = status other than Ongoing, or clock >= 99, or a constructed only-move position; distinct by (FEN hash, clock).".into();
     rep.assumptions = vec!["reference legal_moves()/in_check()".into()];
-    rep.required_classes = vec!["checkmate", "stalemate", "fifty-move-draw", "checkmate-with-clock-100", "clock-99-ongoing", "in-check-ongoing", "after-null:no-legal-move", "after-null:only-battery-front-pieces-move", "stalemate-with-illegal-ep-capture", "ep-capture-is-the-only-legal-move", "castling-is-the-only-legal-move"];
+    rep.required_classes = vec!["checkmate", "stalemate", "fifty-move-draw", "checkmate-with-clock-100", "clock-99-ongoing", "in-check-ongoing", "after-null:no-legal-move", "after-null:only-battery-front-pieces-move", "stalemate-with-illegal-ep-capture", "ep-capture-is-the-only-legal-move", "castling-is-the-only-legal-move", "only-move:double-push:in-check", "only-move:en-passant", "only-move:castle", "only-move:promotion"];
     let cases = ctx.tier.scale(200_000, 25);
     rep.add(positions(ctx, "walk", cases, (1, 3, 8), 40, visit));
+    // constructed: a chosen move (rare kinds preferred) is the ONLY legal move
+    rep.add(run_prop(ctx, "only-move", ctx.tier.scale(4_000, 25), || (arb_ingredients(), any::<u64>()), |(ing, sel): &(Ingredients, u64), st: &mut Stats| {
+        let state = assemble(ing);
+        let Some(p0) = state.to_pos() else { return Ok(()) };
+        if build(&state).is_none() {
+            return Ok(());
+        }
+        let Some((p, only)) = crate::onlymove::reduce_to_only_move(&p0, *sel) else {
+            st.count("only-move-search-failed", 1);
+            return Ok(());
+        };
+        let rs = RawState::from_pos(&p);
+        let Some(b) = build(&rs) else {
+            st.count("only-move-position-rejected-by-library", 1);
+            return Ok(());
+        };
+        let pos = pos_of_board(&b);
+        if !well_formed(&b, &pos) || pos.legal_moves().iter().any(|m| m.from != only.from || m.to != only.to) {
+            return Ok(());
+        }
+        st.eval(1);
+        let kind = move_class(&pos, only);
+        st.class(&format!("only-move:{}{}", kind, if pos.in_check(pos.stm) { ":in-check" } else { "" }));
+        st.nontrivial(pos_hash(&pos) ^ pos.hm as u64);
+        st.sample(|| format!("{} (only move {}) -> {:?}", pos.to_fen(true), only.text(), b.status()));
+        let origin = format!("bstate:{}", rs.text());
+        let v = Visit { board: &b, pos: &pos, step: &Step::Start, hist: &[], origin: &origin };
+        check_board(&v)
+    }));
     rep
 }
 
